@@ -140,7 +140,7 @@ func init() {
 		h3 := []string{"raise(P1,7)", "whitelist(S1,+A)", "whitelist(S1,-P1)", "gov(ent:signers=O;min=1)", "create(A->R1,600nund@10)"}
 		h4 := []string{"rolled-back-registrations(O)", "wreg(W1,chain-a)", "breg(W1,beacon-a)", "raise(P1,7)"}
 		opt := map[Tier]Options{
-			Quick:    {Depth: 1, Budget: 100 * time.Second, ReplayEvery: 16},
+			Quick:    {Depth: 1, Budget: 100 * time.Second, ReplayEvery: 16, FreshJobs: true},
 			Thorough: {Depth: 2, Budget: 25 * time.Minute, ReplayEvery: 64, MaxStates: 400000},
 		}
 		return &Check{ID: "C13",
